@@ -238,10 +238,17 @@ mod __vx_leafcheck {
         for (s, sh) in paths { out.push((s.to_string(), sh.to_string())); }
         if depth > 0 {
             let sub = type_texts(depth - 1);
+            // representatives of every shape an argument can have: unit, short path, long path, generic with one argument, generic with several
+            let mut reps: Vec<(String, String)> = vec![sub[0].clone(), sub[1].clone(), sub[3].clone()];
+            if let Some(x) = sub.iter().find(|x| x.1.starts_with("C(") && !x.0.contains(',')) { reps.push(x.clone()); }
+            if let Some(x) = sub.iter().rev().find(|x| x.1.starts_with("C(") && x.0.contains(',')) { reps.push(x.clone()); }
             for (ps, psh) in [("V", "P[V]"), ("a::Bc", "P[a,Bc]")] {
                 for (s, sh) in &sub { out.push((format!("{}<{}>", ps, s), format!("C({};{})", psh, sh))); }
-                for (s1, sh1) in sub.iter().take(4) { for (s2, sh2) in sub.iter().take(4) {
+                for (s1, sh1) in &reps { for (s2, sh2) in &reps {
                     out.push((format!("{}<{}, {}>", ps, s1, s2), format!("C({};{},{})", psh, sh1, sh2)));
+                    for (s3, sh3) in &reps {
+                        if ps == "V" { out.push((format!("{}<{}, {}, {}>", ps, s1, s2, s3), format!("C({};{},{},{})", psh, sh1, sh2, sh3))); }
+                    }
                 } }
             }
         }
